@@ -286,7 +286,9 @@ class ExcelCompiler:
 
         # populate the ranges and dependant graph
         for address, lineno in range_todos:
-            excel_compiler._make_cells(address)
+            if address.address not in excel_compiler.cell_map:
+                # (a range can already be built as a precedent of another)
+                excel_compiler._make_cells(address)
             add_line_numbers(address.address, lineno)
 
         try:
